@@ -1,0 +1,19 @@
+//go:build verif
+
+package extensions
+
+import "grol.io/grol/object"
+
+// VerifSanitize exposes sanitizeFileName to the verification harness, under the given
+// IO configuration (the two package globals normally set once by Init).
+// hasArg == false models a call without argument.
+func VerifSanitize(unrestricted, emptyOnlyMode, hasArg bool, name string) (string, error) {
+	saveU, saveE := unrestrictedIOs, emptyOnly
+	defer func() { unrestrictedIOs, emptyOnly = saveU, saveE }()
+	unrestrictedIOs, emptyOnly = unrestricted, emptyOnlyMode
+	var args []object.Object
+	if hasArg {
+		args = []object.Object{object.String{Value: name}}
+	}
+	return sanitizeFileName(args)
+}
